@@ -112,10 +112,11 @@ type c12Client struct {
 	ownGen   int32    // generation in the latest join reply
 	sess     int
 	reb      int
-	left     bool // LeaveGroup answered NONE for this id
-	ghost    bool // never joined
-	replaced bool // a later join with this id was answered with a different id
-	gone     bool // the id was seen as a member and later seen absent (left, expired, dropped)
+	left     bool      // LeaveGroup answered NONE for this id
+	ghost    bool      // never joined
+	replaced bool      // a later join with this id was answered with a different id
+	gone     bool      // the id was seen as a member and later seen absent (left, expired, dropped)
+	lastReq  time.Time // instant of the latest request sent with this identity
 }
 
 type c12GenRec struct {
@@ -155,25 +156,28 @@ type c12Result struct {
 }
 
 type c12Run struct {
-	t       *testing.T
-	c       *GroupCoordinator
-	store   *metadata.InMemoryStore
-	gs      *c12GateStore // what the coordinator talks to: store + scheduling points
-	inside  int           // requests that ran inside another request's store call (interleave leg)
-	events  int           // membership events seen by the harness: member set changed, subscription changed
-	lastSet map[string]bool
-	brk     protocol.MetadataBroker
-	ctx     context.Context
-	opts    c12Opts
-	env     c12Env
-	parts   map[string]int // harness's own record of partition counts
-	cl      []*c12Client
-	inc     int   // group incarnation (bumped whenever the group is observed absent)
-	maxGen  int32 // highest generation reported by a join reply in this incarnation
-	joined  map[string]int32
-	gens    map[string]*c12GenRec
-	rebal   int // generation bumps observed in this incarnation beyond the first
-	res     *c12Result
+	t        *testing.T
+	c        *GroupCoordinator
+	store    *metadata.InMemoryStore
+	gs       *c12GateStore // what the coordinator talks to: store + scheduling points
+	inside   int           // requests that ran inside another request's store call (interleave leg)
+	events   int           // membership events seen by the harness: member set changed, subscription changed
+	lastSet  map[string]bool
+	lastLoad time.Time // instant of the first request after the latest restart (the group is only loaded, and its sessions only swept, from then on)
+	unloaded bool      // restarted and no request has loaded the group yet
+	dirty    bool      // an injected store write fault left the persisted group behind the in-memory one
+	brk      protocol.MetadataBroker
+	ctx      context.Context
+	opts     c12Opts
+	env      c12Env
+	parts    map[string]int // harness's own record of partition counts
+	cl       []*c12Client
+	inc      int   // group incarnation (bumped whenever the group is observed absent)
+	maxGen   int32 // highest generation reported by a join reply in this incarnation
+	joined   map[string]int32
+	gens     map[string]*c12GenRec
+	rebal    int // generation bumps observed in this incarnation beyond the first
+	res      *c12Result
 }
 
 func c12EncodeSub(topics []string) []byte {
@@ -448,6 +452,7 @@ func (r *c12Run) doJoin(cl *c12Client, sendID string, sub []string, sess, reb in
 	req.Protocols = append(req.Protocols, p)
 
 	faultsBefore := r.gs.faultCount()
+	r.markLoaded()
 	resp, err := r.c.JoinGroup(r.ctx, req)
 	post := c12Peek(r.c)
 	if err != nil || resp == nil {
@@ -485,6 +490,17 @@ func (r *c12Run) doJoin(cl *c12Client, sendID string, sub []string, sess, reb in
 	}
 	cl.sub = append([]string(nil), sub...)
 	cl.ownGen = resp.Generation
+	cl.lastReq = time.Now()
+	writeFault := r.gs.faultCount() > faultsBefore
+	if writeFault {
+		// the store write of this join failed: any reply is acceptable, but the persisted group
+		// now lags behind the in-memory one until the next successful write
+		r.dirty = true
+		r.class(fmt.Sprintf("fault/join-write-failed/%s/code%d", c12Phase(pre.phase), code))
+		r.res.feats["write-fault"] = true
+	} else if code != protocol.UNKNOWN_SERVER_ERROR {
+		r.dirty = false
+	}
 	if sess > 0 {
 		cl.sess = sess
 	}
@@ -503,11 +519,14 @@ func (r *c12Run) doJoin(cl *c12Client, sendID string, sub []string, sess, reb in
 	}
 
 	// --- C14
-	if _, ok := post.members[resp.LeaderID]; !ok {
+	if writeFault && code != protocol.NONE {
+		// an error reply caused by the injected write fault is accepted as it is
+		r.class("fault/join-error-reply-accepted")
+	} else if _, ok := post.members[resp.LeaderID]; !ok {
 		r.violate("C14", "join reply names leader %q which is not a current member %v", resp.LeaderID, c12Keys(post.members))
 	}
 	if len(resp.Members) > 0 {
-		if code != protocol.NONE {
+		if code != protocol.NONE && !writeFault {
 			r.violate("C14", "join reply with error %d carries a member list", code)
 		}
 		if resp.MemberID != resp.LeaderID {
@@ -573,6 +592,22 @@ func (r *c12Run) mustReject(pre c12WB, cl *c12Client, id string, gen int32) (boo
 	if cl != nil && cl.gone && cl.id == id {
 		return true, "removed-earlier"
 	}
+	if cl != nil && !cl.lastReq.IsZero() && cl.id == id {
+		// silent for longer than its announced session timeout plus one full cleanup interval
+		// (counted from the coordinator's latest start): it must have been expired, whatever
+		// phase the group was in
+		sess := time.Duration(cl.sess) * time.Millisecond
+		if cl.sess <= 0 {
+			sess = defaultSessionTimeout
+		}
+		base := cl.lastReq.Add(sess)
+		if r.lastLoad.After(base) {
+			base = r.lastLoad
+		}
+		if !r.unloaded && !time.Now().Before(base.Add(time.Duration(r.env.CleanupMs)*time.Millisecond+time.Millisecond)) {
+			return true, "session-lapsed"
+		}
+	}
 	if gen != pre.gen {
 		if gen < r.maxGen {
 			return true, "stale-gen"
@@ -582,10 +617,18 @@ func (r *c12Run) mustReject(pre c12WB, cl *c12Client, id string, gen int32) (boo
 	return false, ""
 }
 
+// markLoaded: the request being sent makes a freshly restarted coordinator load the group.
+func (r *c12Run) markLoaded() {
+	if r.unloaded {
+		r.unloaded = false
+		r.lastLoad = time.Now()
+	}
+}
+
 func (r *c12Run) noteReject(why string) {
 	r.res.rejects++
 	r.class("mustreject/" + why)
-	if r.rebal > 0 && (why == "stale-gen" || why == "not-member" || why == "left-or-ghost" || why == "removed-earlier") {
+	if r.rebal > 0 && (why == "stale-gen" || why == "not-member" || why == "left-or-ghost" || why == "removed-earlier" || why == "session-lapsed") {
 		r.res.feats["stale-after-rebalance"] = true
 	}
 }
@@ -605,6 +648,8 @@ func (r *c12Run) doSync(cl *c12Client, gen int32) {
 	// the fencing predicate is decided at the instant the request is issued (a request that
 	// is parked in a store call by the interleave leg must not be judged by later events)
 	rej, why := r.mustReject(pre, cl, cl.id, gen)
+	cl.lastReq = time.Now()
+	r.markLoaded()
 	insideBefore := r.inside
 	faultsBefore := r.gs.faultCount()
 	// generation gen was completed (everybody joined it, leader synced) and the harness has
@@ -669,6 +714,7 @@ func (r *c12Run) doSync(cl *c12Client, gen int32) {
 		return
 	}
 
+	r.dirty = false // a successful sync wrote the whole group back
 	// --- C12
 	g := r.rec(gen)
 	if !g.haveSnap {
@@ -826,6 +872,8 @@ func (r *c12Run) doHeartbeat(cl *c12Client, gen int32) {
 	req.Generation = gen
 	req.MemberID = cl.id
 	rej, why := r.mustReject(pre, cl, cl.id, gen)
+	cl.lastReq = time.Now()
+	r.markLoaded()
 	insideBefore := r.inside
 	resp := r.c.Heartbeat(r.ctx, req)
 	post := c12Peek(r.c)
@@ -837,6 +885,9 @@ func (r *c12Run) doHeartbeat(cl *c12Client, gen int32) {
 	r.class(fmt.Sprintf("hb/%s/code%d", c12Phase(pre.phase), resp.ErrorCode))
 	if r.inside == insideBefore && !c12OffsetsEqual(offBefore, r.offsets()) {
 		r.violate("C13", "Heartbeat changed committed offsets")
+	}
+	if resp.ErrorCode == protocol.NONE {
+		r.dirty = false
 	}
 	if rej {
 		r.noteReject(why)
@@ -870,6 +921,8 @@ func (r *c12Run) doCommit(cl *c12Client, gen int32, topic string, part int32, of
 	req.Topics = append(req.Topics, rt)
 	rej, why := r.mustReject(pre, cl, cl.id, gen)
 	joinedGen := r.joined[cl.id]
+	cl.lastReq = time.Now()
+	r.markLoaded()
 	insideBefore := r.inside
 	faultsBefore := r.gs.faultCount()
 	resp, err := r.c.OffsetCommit(r.ctx, req)
@@ -927,6 +980,8 @@ func (r *c12Run) doLeave(cl *c12Client) {
 	req := kmsg.NewPtrLeaveGroupRequest()
 	req.Group = c12Group
 	req.MemberID = cl.id
+	cl.lastReq = time.Now()
+	r.markLoaded()
 	resp := r.c.LeaveGroup(r.ctx, req)
 	post := c12Peek(r.c)
 	if resp == nil {
@@ -936,6 +991,7 @@ func (r *c12Run) doLeave(cl *c12Client) {
 	r.class(fmt.Sprintf("leave/%s/code%d", c12Phase(pre.phase), resp.ErrorCode))
 	if resp.ErrorCode == protocol.NONE {
 		cl.left = true
+		r.dirty = false
 		delete(r.joined, cl.id)
 		if len(post.members) >= 1 {
 			r.res.feats["leave-rebalance"] = true
@@ -1028,6 +1084,10 @@ func (r *c12Run) step(a c12Act) {
 			r.class("act/joinNew-skipped-full")
 			return
 		}
+		if a.Nth == 1 {
+			r.writeFaulted(func() { r.doJoin(nil, "", c12MaskTopics(a.Sub), a.Sess, a.Reb) })
+			return
+		}
 		r.doJoin(nil, "", c12MaskTopics(a.Sub), a.Sess, a.Reb)
 	case c12KRejoin:
 		cl := r.pick(a.Who)
@@ -1062,6 +1122,10 @@ func (r *c12Run) step(a c12Act) {
 			r.class("rejoin/with-dead-id")
 		}
 		sess := a.Sess
+		if a.Nth == 1 {
+			r.writeFaulted(func() { r.doJoin(cl, cl.id, sub, sess, a.Reb) })
+			return
+		}
 		r.doJoin(cl, cl.id, sub, sess, a.Reb)
 	case c12KSync:
 		if cl := r.pick(a.Who); cl != nil {
@@ -1185,6 +1249,7 @@ func (r *c12Run) round(a c12Act) {
 		k = -k
 	}
 	rot := append(append([]*c12Client(nil), live[k%len(live):]...), live[:k%len(live)]...)
+	joins := 0
 	for pass := 0; pass < 2; pass++ {
 		for _, cl := range rot {
 			w := c12Peek(r.c)
@@ -1194,11 +1259,39 @@ func (r *c12Run) round(a c12Act) {
 			if pass == 1 && w.exists && r.joined[cl.id] == w.gen && w.phase != groupStatePreparingRebalance && a.TAmt%2 == 0 {
 				continue
 			}
+			joins++
+			if a.Nth > 0 && joins == a.Nth {
+				cl := cl
+				r.writeFaulted(func() { r.doJoin(cl, cl.id, cl.sub, 0, cl.reb) })
+				continue
+			}
 			r.doJoin(cl, cl.id, cl.sub, 0, cl.reb)
 		}
 	}
 	w := c12Peek(r.c)
 	if !w.exists {
+		return
+	}
+	if a.Part%4 == 3 && (w.phase == groupStateCompletingRebalance || w.phase == groupStatePreparingRebalance) {
+		// everybody re-joined and then falls silent while the rebalance is still open: once the
+		// sessions (plus a cleanup interval) have lapsed, nobody may heartbeat or commit any more
+		var until time.Time
+		for _, cl := range rot {
+			sess := time.Duration(cl.sess) * time.Millisecond
+			if cl.sess <= 0 {
+				sess = defaultSessionTimeout
+			}
+			if t := cl.lastReq.Add(sess); t.After(until) {
+				until = t
+			}
+		}
+		r.class("round/all-silent-during-open-rebalance")
+		r.res.feats["expiry-during-rebalance"] = true
+		r.advance(time.Until(until) + time.Duration(r.env.CleanupMs)*time.Millisecond + time.Millisecond)
+		for _, cl := range rot {
+			r.doCommit(cl, cl.ownGen, c12TopicNames[0], 0, 41, false)
+			r.doHeartbeat(cl, cl.ownGen)
+		}
 		return
 	}
 	if a.Part%4 == 2 && w.phase == groupStateCompletingRebalance {
@@ -1453,6 +1546,7 @@ func c12DrawActFields(t *rapid.T, ap *c12Act) {
 		a.Sub = rapid.IntRange(0, 15).Draw(t, "sub")
 		a.Sess = rapid.SampledFrom(c12Sessions).Draw(t, "sess")
 		a.Reb = rapid.SampledFrom(c12Rebs).Draw(t, "reb")
+		a.Nth = rapid.SampledFrom([]int{0, 0, 0, 0, 0, 1}).Draw(t, "wfault")
 	case c12KRejoin:
 		a.Who = rapid.IntRange(0, 23).Draw(t, "who")
 		a.SubMode = rapid.SampledFrom([]int{0, 0, 1}).Draw(t, "submode")
@@ -1461,6 +1555,7 @@ func c12DrawActFields(t *rapid.T, ap *c12Act) {
 		}
 		a.Sess = rapid.SampledFrom(c12Sessions).Draw(t, "sess")
 		a.Reb = rapid.SampledFrom(c12Rebs).Draw(t, "reb")
+		a.Nth = rapid.SampledFrom([]int{0, 0, 0, 0, 0, 1}).Draw(t, "wfault")
 	case c12KSync, c12KHeartbeat:
 		a.Who = rapid.IntRange(0, 23).Draw(t, "who")
 		a.GenSel = rapid.SampledFrom(c12Gensel).Draw(t, "gensel")
@@ -1492,6 +1587,7 @@ func c12DrawActFields(t *rapid.T, ap *c12Act) {
 		a.TAmt = rapid.IntRange(0, 1).Draw(t, "rejoinall")
 		a.Part = rapid.IntRange(0, 3).Draw(t, "staleleave")
 		a.Sub = rapid.IntRange(0, 15).Draw(t, "resub")
+		a.Nth = rapid.SampledFrom([]int{0, 0, 0, 0, 1, 2, 3, 4}).Draw(t, "wfault")
 	case c12KRestart:
 		a.TMode = rapid.SampledFrom([]int{0, 0, 1, 1, 2, 3}).Draw(t, "first")
 		a.Who = rapid.IntRange(0, 23).Draw(t, "who")
